@@ -118,6 +118,24 @@ def check_sites(ctx, rule):
                      loc=m.loc(fi, call),
                      witness={"callee": callee, "provenance": sorted(prov),
                               "chain": chain})
+        elif any(p.startswith("other:") and p.endswith("-of-subscript")
+                 for p in prov):
+            # the receiver can be an element taken out of a container (of a
+            # type table, a children list): an object that existed before and
+            # that other types or the application schema may hold as well
+            chain = P.chain(fi.qualname)
+            run.fail(rule, fi.qualname, construct,
+                     "%s can be applied to an object taken out of an "
+                     "existing container without being copied first "
+                     "(receiver provenance: %s): the container's other "
+                     "holders (the base type, the application schema) see "
+                     "the change; reachable while a configuration is "
+                     "loaded: %s"
+                     % (callee, sorted(prov),
+                        " -> ".join(c.split(".")[-1] for c in chain[-6:])),
+                     loc=m.loc(fi, call),
+                     witness={"callee": callee, "provenance": sorted(prov),
+                              "chain": chain})
         elif any(p.startswith("other:") and p.endswith("-of-attr")
                  for p in prov):
             # the receiver can be an object that was read back from an
@@ -349,6 +367,53 @@ def run(ctx):
         for d in a.defaults + [x for x in a.kw_defaults if x is not None]:
             if isinstance(d, (ast.List, ast.Dict, ast.Set)):
                 bad.append((fi, d, "mutable default argument"))
+    # a mutable container bound at class level and never re-bound on the
+    # instance is one object for all instances: storing into it through
+    # `self` outlives the load (a process-wide cache in disguise)
+    for q, fi in sorted(reach.items()):
+        if fi.cls is None or not fi.params:
+            continue
+        selfn = fi.params[0]
+        shared = {}
+        inst_fields = set()
+        for k in m.mro(fi.cls.qualname):
+            c = m.classes.get(k)
+            if c is None:
+                continue
+            inst_fields |= set(c.fields)
+            for an, vals in c.attrs.items():
+                if any(isinstance(v, (ast.Dict, ast.List, ast.Set))
+                       or (isinstance(v, ast.Call) and src(v.func) in (
+                           "dict", "list", "set", "OrderedDict",
+                           "collections.OrderedDict", "defaultdict",
+                           "collections.defaultdict")) for v in vals):
+                    shared.setdefault(an, k)
+        shared = {a: k for a, k in shared.items() if a not in inst_fields}
+        if not shared:
+            continue
+        for n in walk_shallow(fi.node):
+            tgt = None
+            if isinstance(n, (ast.Assign, ast.AugAssign)):
+                for t in (n.targets if isinstance(n, ast.Assign)
+                          else [n.target]):
+                    if isinstance(t, ast.Subscript):
+                        tgt = t.value
+            elif isinstance(n, ast.Call) and isinstance(
+                    n.func, ast.Attribute) and n.func.attr in (
+                        "append", "extend", "insert", "add", "update",
+                        "setdefault", "pop", "popitem", "remove", "clear",
+                        "discard"):
+                tgt = n.func.value
+            elif isinstance(n, ast.Delete):
+                for t in n.targets:
+                    if isinstance(t, ast.Subscript):
+                        tgt = t.value
+            if isinstance(tgt, ast.Attribute) and isinstance(
+                    tgt.value, ast.Name) and tgt.value.id == selfn \
+                    and tgt.attr in shared:
+                bad.append((fi, n, "store into the class-level container "
+                            "%s.%s (shared by every instance)"
+                            % (shared[tgt.attr], tgt.attr)))
     for fi, n, why in bad:
         run.fail("C13.R6", fi.qualname, src(n)[:80],
                  "process-wide state written while a configuration is "
